@@ -103,6 +103,18 @@ CHECKS = {
     note="Clause texts, values and placements are a catalogue frozen from the pinned tree and reviewed against the property's list; "
          "clauses are combined within one dialect; TLC, PLY, CPython trusted.",
     design="DESIGN.md 3.4, 4 (C11)", technique=TECH + " (Clauses.tla)"),
+ "C10": dict(
+    text="TLC model-checks ModeFields / Placement / ClauseOrthogonal of spec/Clauses.tla with all 15 output modes admitted (placement of "
+         "every clause key in every mode from the declared/shown field tables) and enumerates statements with spec/Registry.tla, "
+         "TableFold.tla, Entities.tla. Replay: every shown Clauses behaviour is parsed in the mode TLC chose and every clause key must "
+         "sit where TLC placed it (top level / table_properties / hidden); every generated ALTER/INDEX script, table, entity script and "
+         "regression-corpus script is parsed in the default and the other modes (x group_by_type x normalize_names): no mode may raise "
+         "where the default does not, the entity sequence and each table's common projection (schema<->dataset at every depth, common "
+         "column attributes, index without `clustered`) must equal the default mode's, and every non-common top-level table key must "
+         "be documented for that mode.",
+    note="Documented modes per field = frozen table harness/mode_fields.json (field metadata of the pinned tree); quick tier samples "
+         "modes and behaviours, thorough uses all 15 x flags; TLC, PLY, CPython trusted.",
+    design="DESIGN.md 3.6, 4 (C10)", technique=TECH + " (Clauses.tla, Registry.tla, TableFold.tla, Entities.tla)"),
 }
 NOT_YET = {}
 def main():
